@@ -550,9 +550,11 @@ func (w *world) step(st *Step) bool {
 		defer close(done)
 		st.Pan = hx.Catch(func() { w.call(st) })
 	}()
+	tm := time.NewTimer(watchdog + 3*time.Second) // SMF.RecordFrom's stop sleeps a second by design
+	defer tm.Stop()
 	select {
 	case <-done:
-	case <-time.After(watchdog + 3*time.Second): // SMF.RecordFrom's stop sleeps a second by design
+	case <-tm.C:
 		st.Timeout = true
 		st.Ret, st.Port, st.List, st.Closed, st.Sent, st.Open, st.Lis, st.Str = "nil", noPort, []PortID{}, []int{}, []hx.B{}, []PortID{}, []PortID{}, hx.B{}
 		return false
@@ -1027,9 +1029,11 @@ func cmdWalk(args []string) {
 					}
 					done <- true
 				}()
+				tm := time.NewTimer(watchdog)
 				select {
 				case <-done:
-				case <-time.After(watchdog):
+					tm.Stop()
+				case <-tm.C:
 					hung = true
 					mism = true
 					s.Steps[len(s.Steps)-1].Timeout = true
